@@ -11,7 +11,8 @@ ENGINES = [
                         "step all datagrams at all endpoints and the projected tables of all clients are compared with the spec's expected outputs and target state"),
 ]
 
-ENGINES.append(dict(name="engine-B-trace", path="/verif/harness (TestClientConnTrace, TestKeepAliveTrace) + /verif/spec/Trace*.tla", serves_properties=["C05", "C13", "C14"],
+ENGINES.append(dict(name="engine-B-trace", path="/verif/harness (TestClientConnTrace, TestKeepAliveTrace, TestRelayTrace, TestServerTrace) + /verif/spec/Trace*.tla",
+                    serves_properties=["C01", "C02", "C04", "C05", "C06", "C07", "C08", "C13", "C14", "C19"],
                     kind_free_text="code -> spec: seeded random drivers that are not derived from the spec run the real client (and server) in virtual time and record one ndjson event per observable step; "
                                    "TLC replays the events through the specification's actions (trace specification, POSTCONDITION on the high-water mark) and evaluates the invariants at every step"))
 
@@ -28,10 +29,14 @@ CORE_NOTE = ("Trusted: TLC, the Go toolchain and testing/synctest's virtual cloc
              "reproduced by the real server). Bounded by the constants of the configurations listed in the evidence file.")
 
 def core(design, what):
-    return dict(engine="engine-A-walk", design_ref=design, technique="TLA+ spec + TLC exhaustive check + lock-step replay of TLC's state graph on the real server",
+    return dict(engine="engine-A-walk", design_ref=design, technique="TLA+ spec + TLC exhaustive check + lock-step replay of TLC's state graph on the real server "
+                "+ trace validation of concurrent executions of the real server against the same spec (TLC infers the linearisation)",
                 level_note=CORE_NOTE,
                 level_text=what + " TLC checks the formula on every reachable state/step of the bounded configurations; every edge of the generation "
-                "slices is then replayed on the real server and the observables this property pins are compared after each step.")
+                "slices is then replayed on the real server and the observables this property pins are compared after each step. "
+                "Where the plan says so (evidence: walks with engine trace-validation, family server) executions of the real server under concurrent rounds of "
+                "requests, indications and peer datagrams, recorded by a driver that is not derived from the spec, are validated against TurnServer.tla by TLC; "
+                "a rejected execution is this property's violation when the class of observation that has to be ignored to make it acceptable is one this property pins.")
 
 TEXT = {
     "C01": core("6/C01", "Action property C01_OnlyAuthorised and invariant C01_NeverInstalled: every datagram toward a peer is justified by the sender's own live permission/channel in the pre-state, vetoed or wrong-family peers are never installed."),
